@@ -579,11 +579,20 @@ func judgeValidation(r *Run, j *Judged, c *cls, by map[int]*OResp) {
 		if c.H != nil && c.H != c.B && len(c.H.Header.Values("Cache-Control")) > 0 {
 			eff = c.H.Header
 		}
+		// ... and as the chain of 304s that validated B leaves it (an intermediate 304 may have replaced the
+		// directive, a later one without Cache-Control keeps that): a field counts only if both readings name it
+		chainHdr, _ := r.effectiveStored(c.B, e.SeqInv)
+		chainNamed := map[string]bool{}
+		if cv, ok := parseCC(chainHdr)["no-cache"]; ok {
+			for _, f := range strings.Split(cv, ",") {
+				chainNamed[http.CanonicalHeaderKey(strings.TrimSpace(f))] = true
+			}
+		}
 		if v, ok := parseCC(eff)["no-cache"]; ok && v != "" {
 			j.count("C02", "qualified-nocache-field-replayed")
 			for _, f := range strings.Split(v, ",") {
 				f = http.CanonicalHeaderKey(strings.TrimSpace(f))
-				if f == "" {
+				if f == "" || !chainNamed[f] {
 					continue
 				}
 				if got, stored := e.Header.Values(f), c.B.Header.Values(f); len(got) > 0 && reflect.DeepEqual(got, stored) {
